@@ -10,6 +10,8 @@ Sigma == CASE SigmaName = "core" -> {97, 69, 78, 68, 49, 61, 32, 10, 59, 40, 41,
               \* a E N D 1 = SP LF ; ( ) { , " < > # -
            [] SigmaName = "ext" -> {97, 49, 61, 32, 39, 125, 47, 42, 43, 46, 58, 95, 9, 13, 0, 233, 1, 8232, 84, 101}
               \* a 1 = SP ' } / * + . : _ HT CR NUL e-acute U+0001 U+2028 T e
+           [] SigmaName = "cmt" -> {47, 42, 35, 10, 32, 97, 61, 49}
+              \* / * # LF SP a = 1      (comment delimiters: overlapping, nested, unterminated, '#' to end of line)
            [] SigmaName = "num" -> {49, 54, 45, 43, 46, 58, 35, 101, 84, 90, 95, 97, 39, 32, 61}
               \* 1 6 - + . : # e T Z _ a ' SP =
 VARIABLES text
